@@ -177,3 +177,12 @@ Definition go_is_fqdn_ascii (s : list N) : bool :=
   end.
 Definition go_fqdn_ascii (s : list N) : list N := if go_is_fqdn_ascii s then s else s ++ [46%N].
 Definition go_canonical_name_ascii (s : list N) : list N := go_ascii_lower (go_fqdn_ascii s).
+
+(* strings.IndexFunc(s, unicode.IsSpace) on ASCII input: the first of \t \n \v \f \r and space *)
+Definition go_is_space_ascii (c : N) : bool := ((9 <=? c) && (c <=? 13) || (c =? 32))%N.
+Fixpoint go_index_space_from (s : list N) (i : Z) : Z :=
+  match s with
+  | [] => -1
+  | x :: r => if go_is_space_ascii x then i else go_index_space_from r (i + 1)
+  end.
+Definition go_index_space_ascii (s : list N) : Z := go_index_space_from s 0.
